@@ -302,7 +302,7 @@ def check_files(case, ev):
         u4 = G.mk4(cfg)
         files = [[nm, _re.sub(r"\{MASKIMG:(\d+)\}", lambda m: G.v4_canon(u4.deanonymize(int(m.group(1)))), t)] for nm, t in files]
     kw = dict(
-        anon_pwd=False,
+        anon_pwd=bool(case.get("pwd")),
         anon_ip=True,
         salt=cfg["salt"],
         sensitive_words=list(case["words"]) if case["words"] else None,
@@ -358,7 +358,47 @@ def check_files(case, ev):
     return None
 
 
-REPLAY = {"history": check_history, "bulk": check_bulk, "bulk_long": check_bulk, "foreign": check_foreign, "files": check_files}
+def check_nosalt_run(case, ev):
+    """One directory run WITHOUT a salt (netconan draws one): the same address must get the same image
+    in every file of the run, also when a file in between cannot be processed.  case: {addrs, nfiles, bad}"""
+    import ipaddress
+
+    from netconan.anonymize_files import anonymize_files
+
+    d = tempfile.mkdtemp(prefix="vf-c03n-")
+    try:
+        os.makedirs(os.path.join(d, "in"))
+        names = []
+        for i in range(case["nfiles"]):
+            if i in case["bad"]:
+                with open(os.path.join(d, "in", "f%02d_bad.cfg" % i), "wb") as fh:
+                    fh.write(b"ip address 9.9.9.9\n\xff\xfe\n")
+                continue
+            names.append("f%02d.cfg" % i)
+            with open(os.path.join(d, "in", names[-1]), "w") as fh:
+                fh.write("".join(" ip address %s 255.255.255.0\n" % G.v4_canon(a) for a in case["addrs"]))
+        _, exc = guarded(anonymize_files, os.path.join(d, "in"), os.path.join(d, "out"), False, True, preserve_suffix_v4=8, preserve_suffix_v6=8)
+        if exc is not None:
+            return core.exc_finding(exc, case, "anonymize_files/")
+        outs = {}
+        for nm in names:
+            p_ = os.path.join(d, "out", nm)
+            outs[nm] = open(p_).read() if os.path.exists(p_) else None
+    finally:
+        shutil.rmtree(d, ignore_errors=True)
+    ev.case(case, bool(case["bad"]) and len(names) >= 2, ["nosalt-run", "failing-file-between" if case["bad"] else "no-failure"])
+    ref = None
+    for nm in names:
+        if outs[nm] is None:
+            return Finding("nosalt/output-missing", nm, case)
+        if ref is None:
+            ref = (nm, outs[nm])
+        elif outs[nm] != ref[1]:
+            return Finding("nosalt/same-address-different-image-within-one-run", "files %s and %s hold the same addresses but were anonymized differently in one run (failing files: %r)" % (ref[0], nm, case["bad"]), case)
+    return None
+
+
+REPLAY = {"nosalt_run": check_nosalt_run, "history": check_history, "bulk": check_bulk, "bulk_long": check_bulk, "foreign": check_foreign, "files": check_files}
 
 
 @st.composite
@@ -401,8 +441,12 @@ def _files_case(draw):
     for i in range(draw(st.integers(2, 4))):
         lines = []
         for _ in range(draw(st.integers(1, 5))):
-            kind = draw(st.integers(0, 5))
-            if kind == 5:
+            kind = draw(st.integers(0, 6))
+            if kind == 6:
+                from ..gen import secrets as S_
+
+                lines.append(draw(st.sampled_from([l for l in S_.CORPUS if any(ch.isdigit() for ch in l)])))
+            elif kind == 5:
                 m = draw(st.sampled_from([0xFFFFFF00, 0xFFFF0000, 0x000000FF, 0xFFFFFFFC, 0xFF000000, 0x0000FFFF]))
                 lines.append(draw(st.sampled_from([" ip address {MASKIMG:%d} %s" % (m, G.v4_canon(m)), "permit ip %s {MASKIMG:%d}" % (G.v4_canon(m), m), "route {MASKIMG:%d}" % m])))
             elif kind == 0:
@@ -418,7 +462,7 @@ def _files_case(draw):
             else:
                 lines.append(draw(G.token_line(cfg=cfg))["line"])
         files.append(["f%d.cfg" % i, "\n".join(lines) + "\n"])
-    return {"cfg": cfg, "words": words, "asns": asns, "files": files, "dump": draw(st.booleans())}
+    return {"cfg": cfg, "words": words, "asns": asns, "files": files, "dump": draw(st.booleans()), "pwd": draw(st.integers(0, 2)) == 0}
 
 
 def t_history(shard, nshards, seed, ev, known, n=100, steps=40):
@@ -439,6 +483,11 @@ def t_files(shard, nshards, seed, ev, known, n=50):
     return core.hyp_drive(_files_case(), check_files, n, seed, ev, known, check_name="files")
 
 
+def t_nosalt_run(shard, nshards, seed, ev, known, n=25):
+    strat = st.fixed_dictionaries({"addrs": st.lists(G.u32.filter(lambda x: not G.is_mask(x)), min_size=2, max_size=6), "nfiles": st.integers(2, 5), "bad": st.lists(st.integers(0, 4), max_size=2, unique=True)})
+    return core.hyp_drive(strat, check_nosalt_run, n, seed, ev, known, check_name="nosalt_run", shrink=False)
+
+
 def plan(tier):
     q = tier == "quick"
     return [
@@ -447,4 +496,5 @@ def plan(tier):
         Task("bulk_long", t_bulk, shards=2 if q else 8, n=1 if q else 4, size=24000 if q else 60000),
         Task("foreign", t_foreign, shards=2 if q else 16, n=400 if q else 10000),
         Task("files", t_files, shards=2 if q else 16, n=60 if q else 1500),
+        Task("nosalt_run", t_nosalt_run, shards=1 if q else 4, n=30 if q else 600),
     ]
